@@ -24,7 +24,11 @@ func (l *idleListener) Addr() net.Addr           { return &net.TCPAddr{} }
 // Serve is called on a server that has been closed (after), or at the same moment as it is being closed (race): in either case
 // Serve must return and the listener it was given must end up closed — nothing else would ever close it.
 func probeLateServe(f []string) string {
-	srv := smtp.NewServer(&backend{log: &evlog{}, q: map[string][]string{}, dataStarted: make(chan struct{}, 1)})
+	be := &backend{log: &evlog{}, q: map[string][]string{}, dataStarted: make(chan struct{}, 1)}
+	srv := smtp.NewServer(be)
+	if f[2] == "fromlogout" {
+		return probeEndFromLogout(srv, be, f[1])
+	}
 	l := &idleListener{closed: make(chan struct{})}
 	end := func() {
 		if f[1] == "shutdown" {
@@ -56,6 +60,54 @@ func probeLateServe(f []string) string {
 	default:
 	}
 	l.Close() // do not leave the goroutine behind
+	return fmt.Sprintf("returned=%d;lclosed=%d", returned, lclosed)
+}
+
+// ORDER = fromlogout: one greeted connection; the server is ended (ENDING) and the backend's Logout — called by that very Close, or by
+// the connection's own end during a Shutdown — ends the server once more.  The inner call must report "closed" and both must return.
+func probeEndFromLogout(srv *smtp.Server, be *backend, ending string) string {
+	l, err := net.Listen("tcp", "127.0.0.1:0")
+	if err != nil {
+		return "listen-failed"
+	}
+	inner := make(chan error, 4)
+	be.onLogout = func() { inner <- srv.Close() }
+	ret := make(chan error, 1)
+	go func() { ret <- srv.Serve(l) }()
+	c, err := net.Dial("tcp", l.Addr().String())
+	if err != nil {
+		return "dial-failed"
+	}
+	defer c.Close()
+	c.SetDeadline(time.Now().Add(3 * time.Second))
+	buf := make([]byte, 512)
+	c.Read(buf)
+	c.Write([]byte("HELO x\r\n"))
+	c.Read(buf)
+	outer := make(chan struct{})
+	go func() {
+		if ending == "shutdown" {
+			ctx, cancel := context.WithTimeout(context.Background(), 500*time.Millisecond)
+			srv.Shutdown(ctx)
+			cancel()
+			c.Close() // the connection ends: its Logout runs now
+		} else {
+			srv.Close()
+		}
+		close(outer)
+	}()
+	returned, lclosed := 0, 0
+	select {
+	case <-outer:
+		select {
+		case e := <-inner:
+			if e == smtp.ErrServerClosed {
+				returned, lclosed = 1, 1
+			}
+		case <-time.After(1500 * time.Millisecond):
+		}
+	case <-time.After(2500 * time.Millisecond):
+	}
 	return fmt.Sprintf("returned=%d;lclosed=%d", returned, lclosed)
 }
 
